@@ -719,7 +719,8 @@ def register_legacy_parts_thread(R):
 
     def plan_ok(c):
         mp = [e for e in flat(c.trace) if e.kind == 'ext' and e.name == 'legacy_executor.map']
-        out = {'one_map_over_the_ranges': (B(len(mp) == 1), ['C14', 'C02'])}
+        # (the results of the map are consumed -- list(...) -- which is what re-raises a failed range here: C03)
+        out = {'one_map_over_the_ranges': (B(len(mp) == 1), ['C14', 'C02', 'C03'])}
         if len(mp) == 1:
             fn, it = mp[0].args[0], mp[0].args[1]
             okfn = isinstance(fn, PartialV) and getattr(getattr(fn.func, 'finfo', None), 'name', None) == '_download_range' and len(fn.args) == 7
@@ -746,7 +747,7 @@ def register_legacy_parts_thread(R):
             z3.And(B(True), to_z3_bool(c.engine.identity(pu[0].args[0], sentinel, c.new.st))) if okk else B(False), ['C04', 'C06', 'C02'])}
 
     R.contract(
-        f'{MPD}._download_file_as_future', props=['C14', 'C02', 'C15', 'C06'],
+        f'{MPD}._download_file_as_future', props=['C14', 'C02', 'C15', 'C06', 'C03'],
         params=dict(bucket=ExtT('str'), key=ExtT('str'), filename=ExtT('str'), object_size=Int, extra_args=EXTRA, callback=OptT(ExtT('legacy_cb'))),
         setup=lambda eng, st, args, self_val: (st.assume(args['object_size'] >= 0), st.assume(args['object_size'] < TWO53),
                                                st.assume(st.obj(st.obj(self_val).fields['_config']).fields['multipart_chunksize'] > 0),
